@@ -70,6 +70,19 @@ func (l *Ledger) Expect(evs []Ev) {
 				l.expected[key]++
 			}
 		}
+		// listeners registered for several change types in ONE call cannot tell the types apart: type "*"
+		for _, k := range []string{"L7", "L8", "L9", "L10"} {
+			snap := e.Snap
+			if k == "L7" {
+				snap = "id"
+			}
+			key := LedgerEntry{Listener: k, Store: e.Store, Type: "*", Id: e.Id, Snap: snap}.key()
+			if e.Optional {
+				l.optional[key]++
+			} else {
+				l.expected[key]++
+			}
+		}
 	}
 }
 
@@ -173,10 +186,15 @@ type typedListener[E boltz.Entity] struct {
 	r     *Run
 	store string
 	typ   string
+	kind  string
 }
 
 func (l *typedListener[E]) HandleEntityEvent(e E) {
-	l.r.recordEvent("L1", l.store, l.typ, e)
+	k := l.kind
+	if k == "" {
+		k = "L1"
+	}
+	l.r.recordEvent(k, l.store, l.typ, e)
 }
 
 type typedConstraint[E boltz.Entity] struct {
@@ -247,6 +265,19 @@ func registerListeners[E boltz.Entity](r *Run, name string, store boltz.EntitySt
 	store.AddEntityIdListener(func(id string) {
 		r.recordIdEvent("L4", name, EvDelete, id)
 	}, boltz.EntityDeleted)
+	// one registration call naming several change types, in every style
+	store.AddEntityIdListener(func(id string) {
+		r.recordIdEvent("L7", name, "*", id)
+	}, boltz.EntityCreated, boltz.EntityUpdated, boltz.EntityDeleted)
+	store.AddListener(func(e boltz.Entity) {
+		r.recordEvent("L8", name, "*", e)
+	}, boltz.EntityDeleted, boltz.EntityCreated, boltz.EntityUpdated)
+	store.AddEntityEventListener(&typedListener[E]{r: r, store: name, typ: "*", kind: "L9"}, boltz.EntityUpdated, boltz.EntityDeleted, boltz.EntityCreated)
+	store.AddEntityEventListenerF(func(e E) {
+		defer r.s.AsyncDone()
+		r.s.AsyncEnter(fmt.Sprintf("async:L10:%s:%s", name, e.GetId()))
+		r.recordEvent("L10", name, "*", e)
+	}, boltz.EntityCreatedAsync, boltz.EntityDeletedAsync, boltz.EntityUpdatedAsync)
 	store.AddEntityConstraint(&typedConstraint[E]{r: r, store: name})
 	store.AddUntypedEntityConstraint(&untypedConstraint{r: r, store: name})
 }
